@@ -124,7 +124,7 @@ func refused(m *memRig, prop, sig string, it *injected, what string) {
 
 // otherMember picks an accepted member that is not `not`.
 func (m *memRig) otherMember(not crypto.Hash) crypto.Hash {
-	acc := m.accepted()
+	acc := m.leaders()
 	for tries := 0; tries < 20; tries++ {
 		id := acc[m.rng.IntN(len(acc))]
 		if id.id != not {
